@@ -11,6 +11,7 @@ from props import _engineb
 
 ID = "C05"
 LEVEL = "other"
+REPLAY = "replay/engineb_beyond.py"      # ./check --replay of a side-check record (tools/replay_one.py)
 
 import os
 import sys
@@ -64,6 +65,8 @@ def spec(tier):
         "Note that right_factor is only reached for N >= 5 and factor-to-factor pass-through chains for N >= 6/7, "
         "which is why those sizes are included. NOT covered: N >= 8, patterns not enumerated/sampled at N = 6, 7, "
         "floating-point rounding, GPU placement (num_gpus_to_use = 0), MPO algebra other than the constructor."),
+    # bounded, sampled complement on real torch: the same harness cases at sizes beyond the symbolic bound, random values
+    native_falsifier="replay/engineb_beyond.py",
     controls=CONTROLS,
     quick_controls=QUICK_CONTROLS,
     exhaustive=False,        # mixed plan: complete enumeration at small N, samples at N = 6, 7 (see bounds)
